@@ -79,7 +79,7 @@ def _compose(A, B):
 
 
 class Model:
-  def __init__(self, path, P=1, LMAX=2, H=1, ops=("pause", "play", "stop"), reduce=True, faults=False, closers=1):
+  def __init__(self, path, P=1, LMAX=2, H=1, ops=("pause", "play", "stop"), reduce=True, faults=False, closers=1, early=False):
     """faults=True: the backend may fail - for each player the write of one solver-chosen chunk may raise (fault<p> is the
     index of that chunk, or NOFAULT); the exception propagates through `with` / `try-finally` like in Python and, when
     nothing catches it, ends the player thread."""
@@ -88,6 +88,8 @@ class Model:
     # with-block exit in another thread, __del__); every close call must have its postconditions when IT returns
     self.closers = closers
     self.C2 = P + 1
+    # early=True: the second closer may arrive at ANY moment, also while the main thread is still inside play()
+    self.early = early
     tree = ast.parse(open(path).read())
     self.CLS = {c.name: {f.name: f for f in c.body if isinstance(f, ast.FunctionDef)}
                 for c in tree.body if isinstance(c, ast.ClassDef)}
@@ -402,9 +404,11 @@ class Model:
         return self.inline(prog, "AudioThread", "stop", {"self": env["thread"]}, k_next)
       if t == "thread.join()":
         # ghost: with wait false, close() must have asked this thread to stop before waiting for it ("promptly")
+        # joining a thread that was never started raises RuntimeError in CPython (close() would raise): flagged
         return simple(lambda s: {"M.assert_bad": z3.Or(s["M.assert_bad"],
-                                                       z3.And(z3.Not(self.WAIT), z3.Not(fget(s, env["thread"], "halting"))))},
-                      lambda s: fget(s, env["thread"], "done"))
+                                                       z3.And(z3.Not(self.WAIT), z3.Not(fget(s, env["thread"], "halting"))),
+                                                       z3.Not(fget(s, env["thread"], "started")))},
+                      lambda s: z3.Or(fget(s, env["thread"], "done"), z3.Not(fget(s, env["thread"], "started"))))
       if t == "self._pa.terminate()":
         return simple(lambda s: {"M.terminated": s["M.terminated"] + 1}, kind="local")
       if t.startswith("new_thread = AudioThread(self, audio"):
@@ -458,7 +462,8 @@ class Model:
     k = self.inline(prog, "AudioIO", "close", {"self": ("M",), "thread": ("T", "c2.thread")}, fin)
     start = prog.new()
     # the second closer arrives at any moment once the main thread has called close() (either may get the lock first)
-    prog.add(start, lambda s: s["M.close_called"], NOUPD, lambda s, k=k: IV(k), None, "second thread calls close()", kind="other")
+    prog.add(start, (TRUE if self.early else (lambda s: s["M.close_called"])), NOUPD, lambda s, k=k: IV(k), None,
+             "second thread calls close()", kind="other")
     return prog, start
 
   def main_prog(self):
@@ -680,9 +685,12 @@ class Model:
       return z3.Or(*[z3.Or(s["M.order_bad"], s["M.assert_bad"]) for s in states])
     if name == "final":
       s = states[-1]
-      bad = z3.Or(s["M.terminated"] != 1, s["M.raised"] != 1,
-                  *[z3.Or(s["T%d.open" % p], s["T%d.closed" % p] != 1,
-                          z3.And(s["T%d.started" % p], z3.Not(s["T%d.done" % p]), z3.Or(s["T%d.open" % p]))) for p in range(P)])
+      bad = z3.Or(s["M.terminated"] != 1, (s["M.raised"] != 1) if not self.early else z3.ULT(s["M.raised"], 1),
+                  *[(z3.Or(s["T%d.open" % p], s["T%d.closed" % p] != 1,
+                           z3.And(s["T%d.started" % p], z3.Not(s["T%d.done" % p]), z3.Or(s["T%d.open" % p])))
+                     if not self.early else            # an early closer may have refused the play() that creates player p
+                     z3.And(s["T%d.created" % p], z3.Or(s["T%d.open" % p], s["T%d.closed" % p] != 1)))
+                    for p in range(P)])
       return z3.And(s["M.closed_ret"], bad)
     if name == "final2":            # the second close() call returned while the manager was not shut down
       return z3.Or(*[s["M.c2_bad"] for s in states])
